@@ -62,14 +62,15 @@ Entities == << <<E_AMP, 38>>, <<E_LT, 60>>, <<E_GT, 62>>, <<E_NBSP, 32>>, <<E_AP
 EntityAt(s, i) == LET S == {k \in 1..Len(Entities) : StartsAt(s, i, Entities[k][1])} IN
                   IF S = {} THEN 0 ELSE CHOOSE k \in S : TRUE
 
-\* single left-to-right decoding pass
-RECURSIVE DecodeFrom(_, _, _)
-DecodeFrom(s, i, acc) ==
-  IF i > Len(s) THEN acc
-  ELSE LET k == IF s[i] = 38 THEN EntityAt(s, i) ELSE 0 IN
-       IF k = 0 THEN DecodeFrom(s, i + 1, Append(acc, s[i]))
-       ELSE DecodeFrom(s, i + Len(Entities[k][1]), Append(acc, Entities[k][2]))
-Decode(s) == DecodeFrom(s, 1, <<>>)
+\* single left-to-right decoding pass (iterative: texts may be 10000 characters long)
+Decode(s) ==
+  IF \A i \in 1..Len(s) : s[i] # 38 THEN s
+  ELSE FoldLeft(LAMBDA st, i :
+                  IF st.skip > 0 THEN [st EXCEPT !.skip = @ - 1]
+                  ELSE LET k == IF s[i] = 38 THEN EntityAt(s, i) ELSE 0 IN
+                       IF k = 0 THEN [st EXCEPT !.acc = Append(@, s[i])]
+                       ELSE [acc |-> Append(st.acc, Entities[k][2]), skip |-> Len(Entities[k][1]) - 1],
+                [acc |-> <<>>, skip |-> 0], [i \in 1..Len(s) |-> i]).acc
 
 \* wire escaping of character data: & < > must be escaped
 Escape(s) == FoldLeft(LAMBDA acc, c : IF c = 38 THEN acc \o E_AMP
